@@ -16,6 +16,9 @@ def bruteBest (l : List Rat) : Nat × Rat :=
       if bv < v then (k + 1, k, v) else (k + 1, bi, bv)) (1, 0, a)
     (bi, bv)
 
+/-- is the index estimate within one of the bin the edges prescribe -/
+def estNear (k e : Nat) : Bool := e == k || e == k + 1 || e + 1 == k
+
 def handle (op : String) (req : Json) : R Json := do
   match op with
   | "c15.hist" =>
@@ -24,51 +27,93 @@ def handle (op : String) (req : Json) : R Json := do
     if edges.length ≠ hist.length + 1 then throw "edges/hist length mismatch"
     if hist.length < 2 then throw "need at least two bins"
     let cs := centres edges
-    let mech := critList hist cs
-    let idx := argmaxFirst mech
+    let mechN := critListN hist cs
+    let idx := argmaxN mechN
+    let guard := decide (1 ≤ hist.getD 0 0) && decide (1 ≤ hist.getD (hist.length - 1) 0)
     let spec := specCritList hist cs
     let (bi, bv) := bruteBest spec
     -- exact difference of the class means at the best cut (for the rounding allowance)
     let h : List Rat := hist.map (fun (k : Nat) => (k : Rat))
     let hc := List.zipWith (· * ·) h cs
     let du := sumR (hc.take (bi + 1)) / sumR (h.take (bi + 1)) - sumR (hc.drop (bi + 1)) / sumR (h.drop (bi + 1))
+    let nanAt := mechN.findIdx (·.isNone)
     pure (jObj [
       ("index", jNat idx),
-      ("threshold", jRat (otsuHist hist edges)),
+      ("threshold", jRat (otsuHistN hist edges)),
       ("centres", jList jRat cs),
+      ("guard", jBool guard),
+      ("first_nan", if nanAt < mechN.length then jNat nanAt else Json.null),
+      ("nan_count", jNat (mechN.filter (·.isNone)).length),
+      ("class_start", jList jNat ((List.range (hist.length - 1)).map (classStart hist))),
       ("spec_crit", jList jRat spec),
       ("spec_best_index", jNat bi),
       ("spec_best", jRat bv),
       ("spec_best_du", jRat du),
-      ("mech_is_spec", jBool (mech == spec)),
+      ("mech_is_spec", jBool (mechN == spec.map some)),
+      ("mech_zero_div_is_spec", jBool (critList hist cs == spec)),
       ("model_index_is_best", jBool (spec.getD idx 0 == bv))])
   | "c15.data" =>
+    -- every value twice: the bit pattern of the double (what the Float model computes with) and its exact value
+    -- (null = NaN), so that `f64ToRat` itself is checked against the harness's exact conversion
+    let bits ← getList asNat req "bits"
     let data ← getList (asOpt asRat) req "data"
     let n ← getNat req "bins"
-    let npEdges ← getList asRat req "np_edges"
+    -- run lengths (optional): value `i` stands for `counts[i]` equal elements.  The model is evaluated on the distinct
+    -- values (minimum, maximum, edges and the bin of a value do not depend on how often it occurs) and the counts of
+    -- the bins are weighted by the run lengths
+    let counts ← match fldOpt req "counts" with
+      | some j => some <$> asList asNat j
+      | none => pure none
     if n < 2 then throw "need at least two bins"
+    if bits.length ≠ data.length then throw "bits/data length mismatch"
+    if let some cs := counts then
+      if cs.length ≠ bits.length ∨ cs.any (· == 0) then throw "bad run lengths"
+    let fs := bits.map (fun b => Float.ofBits (UInt64.ofNat b))
+    for (f, d) in fs.zip data do
+      match d with
+      | none => if !f.isNaN then throw "bits/data mismatch: NaN expected"
+      | some q => if !f.isFinite || f64ToRat f ≠ q then throw s!"f64ToRat disagrees with the exact value sent: {q}"
+    let mirror (gs : List Float) : Json := match npHistogram gs n with
+      | .error msg => jObj [("raises", jStr msg)]
+      | .ok r =>
+        let er := r.edges.map f64ToRat
+        let kept := gs.map f64ToRat   -- the range was finite: no NaN, every value is kept
+        let ks := kept.map (binByEdges er)
+        let fcmp := (gs.zip ks).all (fun (x, k) =>
+          (decide (x < r.edges.getD k 0) == decide (f64ToRat x < er.getD k 0)) &&
+          (decide (x ≥ r.edges.getD (k + 1) 0) == decide (f64ToRat x ≥ er.getD (k + 1) 0)))
+        let hist := match counts with
+          | none => r.hist
+          | some cs =>   -- only reached with no NaN in the data: `gs` is the whole array, runs align with the bins
+            (List.range n).map (fun k => ((r.bins.zip cs).filter (fun p => p.1 == k)).foldl (fun a p => a + p.2) 0)
+        jObj [("hist", jList jNat hist),
+              ("edges", jList jRat er),
+              ("edge_bits", jList (fun (e : Float) => jNat e.toBits.toNat) r.edges),
+              ("est_within_one", jBool ((List.zipWith estNear ks r.ests).all id)),
+              ("est_exact", jNat ((List.zipWith (fun k e => k == (if e = n then e - 1 else e)) ks r.ests).count true)),
+              ("hist_is_by_edges", jBool (r.hist == histogramE er kept)),
+              ("edges_increasing", jBool ((List.zipWith (fun a b => decide (a < b)) er er.tail).all id)),
+              ("first_edge_is_min", jBool (er.getD 0 0 == minL kept)),
+              ("last_edge_is_max", jBool (er.getD n 0 == maxL kept)),
+              ("float_compare_is_exact_compare", jBool fcmp),
+              ("threshold", jRat (otsuHistN hist er))]
+    -- `x[~np.isnan(x)]` on the doubles, then the histogram; and the histogram of the array as given
+    let np := mirror (maskSelect fs (fs.map (fun f => !f.isNaN)))
+    let npRaw := if fs.any (·.isNaN) then mirror fs else Json.null
+    -- the exact layer (uniform rational edges, NaN = none)
     let xs := data.filterMap id
-    if xs.isEmpty then throw "no finite data"
-    let (hist, edges) := histogram xs n
-    let (lo, hi) := histRange xs
-    -- distance of every value to the nearest exact bin edge, in units of the bin width
-    let pos := xs.map (fun x => (x - lo) / (hi - lo) * (n : Rat))
-    let margins := pos.map (fun p => absR (p - ((p + 1 / 2).floor : Rat)))
-    let minMargin := (margins.filter (fun d => d ≠ 0)).foldl min 1
-    -- a value exactly on an interior exact edge is binned like NumPy only if NumPy's edge is that value
-    let onEdgeOk := pos.all (fun p =>
-      if p = (p.floor : Rat) then
-        let k := p.floor.toNat
-        k == 0 || k == n || (npEdges.getD k 0 == edges.getD k 0)
-      else true)
+    if counts.isSome ∧ fs.any (·.isNaN) then throw "run lengths with NaN are not supported"
+    let exact : Json :=
+      if xs.isEmpty || counts.isSome then Json.null else
+      let (hist, edges) := histogram xs n
+      jObj [("hist", jList jNat hist), ("edges", jList jRat edges),
+            ("distinct", jBool (minL xs != maxL xs))]
     pure (jObj [
-      ("hist", jList jNat hist),
-      ("edges", jList jRat edges),
-      ("lo", jRat lo), ("hi", jRat hi),
-      ("distinct", jBool (minL xs != maxL xs)),
-      ("threshold", jRat (otsuRemoveNan data n)),
-      ("min_margin", jRat minMargin),
-      ("on_edge_ok", jBool onEdgeOk)])
+      ("np", np),
+      ("np_raw", npRaw),
+      ("exact", exact),
+      ("otsu_remove_nan", if counts.isSome then Json.null else jOpt jRat (otsuArr true data n)),
+      ("otsu_keep_nan", if counts.isSome then Json.null else jOpt jRat (otsuArr false data n))])
   | _ => throw s!"unknown op {op}"
 
 end PewDriver.C15
